@@ -115,13 +115,16 @@ def meta(ver3, depth, lenient=False):
     return A.concat(item, A.star(A.concat(rx(r' '), item)))
 
 
-def grid(ver3, depth, lenient=False):
-    """grid whose values have nesting < depth (depth 0: only markers / empty cells)"""
+def grid(ver3, depth, lenient=False, cell_marks=None):
+    """grid whose values have nesting < depth (depth 0: only markers / empty cells); cell_marks = (mark for an empty cell,
+    mark for a cell holding a value) inserts those marks in front of every cell of the outer grid"""
     inner = value(ver3, depth - 1, lenient) if depth > 0 else None
     m = meta(ver3, depth, lenient)
     ver = A.concat(rx(r'ver:'), rx(STR), A.opt(A.concat(rx(r' '), m)), rx(r' *'), rx(NL))
     col = A.concat(rx(ID), A.opt(A.concat(rx(r' '), m)))
     cols = A.concat(col, A.star(A.concat(rx(VSEP), col)), rx(r' *'), rx(NL))
     cell = A.epsilon() if inner is None else A.opt(inner)
+    if cell_marks:
+        cell = A.mark(cell_marks[0]) if inner is None else A.union(A.mark(cell_marks[0]), A.concat(A.mark(cell_marks[1]), inner))
     row = A.concat(cell, A.star(A.concat(rx(VSEP), cell)), rx(r' *'), rx(NL))
     return A.concat(ver, cols, A.star(row))
